@@ -1,5 +1,5 @@
 (* C06 — fingerprint_url.  Statements only.  Proved: the fingerprint never carries a scheme (and
-   is rebuilt with no port by construction).  PARTIAL: invariance under the fingerprint-irrelevant
+   is rebuilt with no port by construction) and depends on the lower-cased url only.  PARTIAL: invariance under the fingerprint-irrelevant
    family (case, ports, language labels from the generated ISO table, gl / hl items, suffix swaps)
    is decided by the harness on the implementation and by model correspondence. *)
 From Coq Require Import List NArith.
@@ -9,4 +9,10 @@ From UV Require Import Py.Val Py.Str Py.UrlLib Ural.Normalize Ural.SuffixTrie Pr
 Theorem C06_no_scheme : forall e t ss u r, fingerprint_split e t ss u = Ok r -> scheme r = [].
 Proof. exact fingerprint_no_scheme. Qed.
 
+(* letter case is irrelevant in every component: the fingerprint is a function of the lower-cased url *)
+Theorem C06_case_irrelevant : forall e t ss u1 u2,
+  lower u1 = lower u2 -> fingerprint_url e t ss u1 = fingerprint_url e t ss u2.
+Proof. exact fingerprint_case_irrelevant. Qed.
+
 Print Assumptions C06_no_scheme.
+Print Assumptions C06_case_irrelevant.
